@@ -117,7 +117,7 @@ REV_CFG = {"quick": [dict(NF=2, MaxOps=4, MaxWrites=2, Progs="AllProgs"),
 REV_INVARIANTS = ["NoBad", "FinalIsLfp", "LocksQuiescent"]
 
 
-def program_rev(calls, gate, inp0):
+def program_rev(calls, gate, inp0, kind="fix"):
     nf = len(calls)
     full = (1 << nf) - 1
     fns = []
@@ -125,7 +125,7 @@ def program_rev(calls, gate, inp0):
         steps = [("orc", 1 << (j - 1))]
         for i, g in enumerate(cl, 1):
             steps.append(("cond", 1, 1, g, full) if gate[j - 1] == i else ("orcall", g, full))
-        fns.append({"kind": "fix", "init": 0, "fwd": 0, "nodes": chain_rev(steps)})
+        fns.append({"kind": kind, "init": 0, "fwd": 0, "nodes": chain_rev(steps)})
     return {"nv": full + 1, "inputs": [[[inp0, 0], [0, 0]]], "cells": [], "fns": fns, "sfns": [], "ifns": [], "lru_cap": 2}
 
 
@@ -146,10 +146,16 @@ def chain_rev(steps):
     return nodes
 
 
-def run_fixrev(tier, wd, timeout=3000):
+REV_FB_CFG = {"quick": [dict(NF=2, MaxOps=4, MaxWrites=2, Progs="AllProgs"),
+                        dict(NF=3, MaxOps=5, MaxWrites=2, Progs="AllProgs", sim=120)],
+              "thorough": [dict(NF=2, MaxOps=5, MaxWrites=3, Progs="AllProgs"),
+                           dict(NF=3, MaxOps=6, MaxWrites=3, Progs="AllProgs", sim=2500)]}
+
+
+def run_fixrev(tier, wd, timeout=3000, fb=False):
     out_all = {"consts": [], "generated": 0, "distinct": 0, "depth": 0, "replays": [], "wall_s": 0.0}
-    for n, consts in enumerate(REV_CFG[tier]):
-        cfgp = os.path.join(wd, f"MC_FixRev_emit{n}.cfg")
+    for n, consts in enumerate((REV_FB_CFG if fb else REV_CFG)[tier]):
+        cfgp = os.path.join(wd, f"MC_FixRev{'Fb' if fb else ''}_emit{n}.cfg")
         sim = consts.get("sim")
         with open(cfgp, "w") as f:
             f.write("SPECIFICATION Spec\nCONSTANTS\n")
@@ -157,8 +163,9 @@ def run_fixrev(tier, wd, timeout=3000):
                 if k == "sim":
                     continue
                 f.write(f"  {k} <- {v}\n" if k == "Progs" else f"  {k} = {v}\n")
-            f.write("  Emit = TRUE\n  Mut = \"none\"\n  defaultInitValue = 0\nINVARIANTS " + " ".join(REV_INVARIANTS) + "\nCHECK_DEADLOCK FALSE\n")
-        twd = os.path.join(wd, f"mc_fixrev{n}")
+            f.write(f"  Emit = TRUE\n  Mut = \"none\"\n  Fb = {'TRUE' if fb else 'FALSE'}\n  defaultInitValue = 0\nINVARIANTS "
+                    + " ".join(["NoBadFb", "LocksQuiescent"] if fb else REV_INVARIANTS) + "\nCHECK_DEADLOCK FALSE\n")
+        twd = os.path.join(wd, f"mc_fixrev{'fb' if fb else ''}{n}")
         os.makedirs(twd, exist_ok=True)
         res = run_tlc(REV_SPEC, cfgp, twd, workers=8 if sim else 16, timeout=timeout, heap="12g", deque=False,
                       simulate=f"num={sim}" if sim else None, extra=["-depth", "600"] if sim else None)
@@ -186,7 +193,7 @@ def run_fixrev(tier, wd, timeout=3000):
     return out_all
 
 
-def replay_jobs_rev(mc, limit, seed):
+def replay_jobs_rev(mc, limit, seed, kind="fix"):
     # every simulated behaviour of the larger instances, and a sample of the exhaustively generated ones
     rng = random.Random(seed)
     sims = [r for r in mc["replays"] if r.get("sim")]
@@ -206,6 +213,6 @@ def replay_jobs_rev(mc, limit, seed):
                 cur = 1 - cur
                 hist.append({"op": "set", "f": 1, "i": 1, "v": cur, "d": -1, "k": 0})
                 pred.append(None)
-        jobs.append({"id": n + 1, "prog": program_rev(r["calls"], r["gate"], r["inp0"]), "hist": hist, "inject": 0,
+        jobs.append({"id": n + 1, "prog": program_rev(r["calls"], r["gate"], r["inp0"], kind), "hist": hist, "inject": 0,
                      "seed": seed, "mode": "mc-fix", "pred": pred})
     return jobs
